@@ -6,6 +6,9 @@
      B:<mid>:<k>:<tok>   the server sends only a proper prefix of that response (nothing may be delivered)
      A:<ms>              the clock advances
      N:<op> / F:<op>     next() / finish() on stream <op> (queued per stream, FIFO)
+     C:<op>              next() polled once and dropped if still pending (cancellation)
+     M:<pct>:<mid>.<k>.<tok>,...   several complete responses in one write (or cut in two at pct percent)
+     X:raw:<hex>         the server sends these bytes; the codec model (FrameFixed.decode_inner') says what they are
      X:eof | X:garbage | X:rderr | X:wrerr     connection faults
      H                   the caller drops its own handle
    Output: after every step  "|" + observation. *)
@@ -76,6 +79,19 @@ let run_script (toks : string list) : string =
                        else if c'.o_status = SError && c.o_status <> SError then (if c.o_chan then "err:timeout" else "err:eos")
                        else "none")
                   end
+              | 'c' ->
+                  (* next() polled once and dropped if it does not complete at once: a call that would stay pending changes nothing *)
+                  let before = !st in
+                  apply (StreamNext (nat_of_int o));
+                  let c' = getop o in
+                  i.cmds <- List.tl i.cmds;
+                  if c'.o_call <> None then st := before
+                  else
+                    i.lastres <-
+                      (if List.length c'.o_got > List.length c.o_got then Printf.sprintf "item:%d" (int_of_nat (List.nth c'.o_got (List.length c'.o_got - 1)).r_tok)
+                       else if c'.o_status = SPanicked then "panic"
+                       else if c'.o_status = SError && c.o_status <> SError then (if c.o_chan then "err:timeout" else "err:eos")
+                       else "none")
               | _ ->
                   apply (StreamFinish (nat_of_int o));
                   i.cmds <- List.tl i.cmds;
@@ -119,6 +135,18 @@ let run_script (toks : string list) : string =
      | ["A"; ms] -> apply (Advance (z_of_decimal ms))
      | ["N"; o] -> let i = info (int_of_string o) in i.cmds <- i.cmds @ ['n']
      | ["F"; o] -> let i = info (int_of_string o) in i.cmds <- i.cmds @ ['f']
+     | ["C"; o] -> let i = info (int_of_string o) in i.cmds <- i.cmds @ ['c']
+     | ["M"; _; parts] ->
+         if not !partial then List.iter (fun part -> match String.split_on_char '.' part with
+           | [mid; k; t] -> apply (ServerSend { r_mid = z_of_decimal mid; r_kind = rkind_of_string k; r_tok = nat_of_int (int_of_string t) })
+           | _ -> failwith "burst") (String.split_on_char ',' parts)
+     | ["X"; "raw"; h] ->
+         (* the codec model decides what the bytes are: an error ends the driver, an incomplete frame wedges the stream like B *)
+         if running () && not !partial then (match decode_inner' (repaired_d max_depth) (bytes_of_hex h) with
+           | DErr -> apply (DrvEnd EndedErr) | DPanic -> apply (DrvEnd EndedPanic) | DNeed -> partial := true
+           | DFrame (mid, op, _, _) ->
+               let kind = (match op with C (_, id, _) | P (_, id, _) -> (match int_of_n id with 4 -> REntry | 19 -> RRef | 25 -> RInter | 5 -> RDone | _ -> ROther)) in
+               apply (ServerSend { r_mid = z_of_int (int_of_n mid); r_kind = kind; r_tok = nat_of_int 0 }))
      | ["X"; "eof"] -> if running () then apply (DrvEnd (if !partial then EndedErr else EndedOk))
      | ["X"; "garbage"] | ["X"; "rderr"] -> if running () then apply (DrvEnd EndedErr)
      | ["X"; "wrerr"] -> wr_armed := true
